@@ -22,6 +22,7 @@ RULE = ('generated source trees on tmpfs (identifier / non-identifier / ignored 
         'enumeration orders and equal to the model\'s sorted walk. distinct = digest of tree + '
         'options; non-trivial = >= 2 test modules or a filter/pruning rule applied. Mostly input '
         'generation: the simulation content is the enumeration-order seam and the import history')
+RULE += (' ' + 'Later additions: mixed-case directory names, stitched packages, duplicate link targets.')
 REAL_VS_STUB = {
     'real': 'options, Find feature, find_test_files/find_suites/test_dirs, import of the '
             'generated modules, Listing feature, on a real tmpfs tree',
